@@ -23,7 +23,7 @@ def exact(op, a, b):
 
 def job_direct(payload):
     """payload: list of ((sa,ua,a),(sb,ub,b)).  Runs intdrv, checks with the oracle."""
-    exe = os.path.join(common.VERIF, "build", "asan", "drv", "intdrv")
+    exe = os.path.join(common.VERIF, "build", common.VARIANT, "drv", "intdrv")
     env = dict(os.environ); env.update(common.ASAN_ENV)
     inp = "".join("%s %x %s %x\n" % (sa, ua, sb, ub) for (sa, ua, a), (sb, ub, b) in payload)
     p = subprocess.run([exe], input=inp.encode(), stdout=subprocess.PIPE, stderr=subprocess.PIPE, env=env, timeout=600)
